@@ -12,13 +12,54 @@ class Responder:
         self.sock.settimeout(0.2)
         self.stop = False
         self.queries = 0
+        self.tcp_queries = 0
+        self.tsock = socket.socket(socket.AF_INET, socket.SOCK_STREAM)
+        self.tsock.setsockopt(socket.SOL_SOCKET, socket.SO_REUSEADDR, 1)
+        self.tsock.bind(("127.0.0.1", 53))
+        self.tsock.listen(16)
+        self.tsock.settimeout(0.2)
         self.th = threading.Thread(target=self.run, daemon=True)
         self.th.start()
+        self.tth = threading.Thread(target=self.run_tcp, daemon=True)
+        self.tth.start()
 
     def close(self):
         self.stop = True
         self.th.join(2)
+        self.tth.join(2)
         self.sock.close()
+        self.tsock.close()
+
+    def run_tcp(self):
+        """answers over TCP (what a resolver falls back to after a truncated UDP reply)"""
+        while not self.stop:
+            try:
+                c, _ = self.tsock.accept()
+            except socket.timeout:
+                continue
+            except OSError:
+                return
+            try:
+                c.settimeout(1.0)
+                while True:
+                    h = c.recv(2)
+                    if len(h) < 2:
+                        break
+                    n = struct.unpack(">H", h)[0]
+                    q = b""
+                    while len(q) < n:
+                        d = c.recv(n - len(q))
+                        if not d:
+                            break
+                        q += d
+                    rep = self.answer(q, tcp=True)
+                    self.tcp_queries += 1
+                    if rep:
+                        c.sendall(struct.pack(">H", len(rep)) + rep)
+            except Exception:
+                pass
+            finally:
+                c.close()
 
     def run(self):
         while not self.stop:
@@ -35,7 +76,7 @@ class Responder:
             if rep:
                 self.sock.sendto(rep, addr)
 
-    def answer(self, q):
+    def answer(self, q, tcp=False):
         self.queries += 1
         tid, flags, qd = struct.unpack(">HHH", q[:6])
         i = 12
@@ -63,4 +104,8 @@ class Responder:
             for a in ent.get("AAAA", []):
                 rrs += b"\xc0\x0c" + struct.pack(">HHIH", 28, 1, 30, 16) + socket.inet_pton(socket.AF_INET6, a)
                 cnt += 1
-        return struct.pack(">HHHHHH", tid, 0x8180, 1, cnt, 0, 0) + question + rrs
+        full = struct.pack(">HHHHHH", tid, 0x8180, 1, cnt, 0, 0) + question + rrs
+        if not tcp and len(full) > 512:
+            # does not fit a classic UDP reply: truncated, the resolver has to come back over TCP
+            return struct.pack(">HHHHHH", tid, 0x8380, 1, 0, 0, 0) + question
+        return full
